@@ -82,6 +82,10 @@ pub struct Case {
     pub droppanic: Option<u64>,
     /// elements are a zero-sized type (vec / array / slice only; all payloads are 0)
     pub zst: bool,
+    /// elements are a `Copy` type without drop glue (vec / array only; no destruction is observable)
+    pub pod: bool,
+    /// the consumed vector is built with `spare` elements of unused capacity (vec only)
+    pub spare: usize,
     pub threads: Vec<Vec<Op>>,
     pub owner: Owner,
     pub sched: Vec<usize>,
@@ -355,6 +359,8 @@ struct Partial {
     clonepanic: Option<u64>,
     droppanic: Option<u64>,
     zst: bool,
+    pod: bool,
+    spare: usize,
     threads: Vec<Vec<Op>>,
     owner: Option<Owner>,
     sched: Option<Vec<usize>>,
@@ -410,6 +416,8 @@ fn finish(p: Partial) -> Result<Case, String> {
         clonepanic: p.clonepanic,
         droppanic: p.droppanic,
         zst: p.zst,
+        pod: p.pod,
+        spare: p.spare,
         threads: p.threads,
         owner: p.owner.unwrap_or(Owner::Drop),
         sched: p.sched.unwrap_or_default(),
@@ -483,6 +491,15 @@ pub fn parse_cases(text: &str) -> Result<Vec<Case>, String> {
             }
             "zst" => {
                 p.zst = true;
+            }
+            "pod" => {
+                p.pod = true;
+            }
+            "spare" => {
+                let k = toks
+                    .get(1)
+                    .ok_or_else(|| format!("line {ln}: spare <k>"))?;
+                p.spare = num::<usize>(k, "spare", ln)?;
             }
             "droppanic" => {
                 let k = toks
